@@ -12,7 +12,7 @@ import random
 from .. import runcheck, problems, swrap, sapi
 from ..common import hexd
 
-KINDS = ["noobj", "nullf", "nullopt", "x0_outside", "x0_fixed", "lb_gt_ub", "infinite_global", "missing_local", "dimension", "population"]
+KINDS = ["noobj", "nullf", "nullopt", "x0_outside", "x0_fixed", "lb_gt_ub", "infinite_global", "missing_local", "dimension", "population", "step_too_wide"]
 
 
 def violate(rng, A, p, kind, algd):
@@ -81,6 +81,16 @@ def violate(rng, A, p, kind, algd):
             if k in q and q[k] is not None:
                 q[k] = list(q[k])[:1]
         q["n"] = 1
+    elif kind == "step_too_wide":
+        # rejected inside the numeric core before any evaluation: the initial step does not fit twice between the bounds of a
+        # LATER coordinate (earlier coordinates have room, so a coordinate-by-coordinate repair of x would already have run)
+        if name != "NLOPT_LN_BOBYQA" or n < 2:
+            return None
+        q["lb"] = [0.0] * n
+        q["ub"] = [10.0] * (n - 1) + [1.0]
+        q["x0"] = [rng.choice([0.5, 0.25, 9.75]) for _ in range(n - 1)] + [0.5]
+        q["dx"] = [1.0] * n
+        q.pop("xw", None)
     elif kind == "population":
         if name not in ("NLOPT_GN_CRS2_LM",):
             return None
